@@ -98,7 +98,7 @@ def check_sdf_text(part, text, zs, pos, key, what, case):
         part.fail("sdf-text-symbols:%s" % key, "%s: symbols in columns 32-34 are %s..., expected %s..." % (what, r["symbols"][:4], want[:4]), case)
         return False
     d = np.abs(np.array(r["xyz"]) - np.asarray(pos)).max()
-    if d > 5.0e-5 + 1e-9:
+    if not (d <= 5.0e-5 + 1e-9):
         part.fail("sdf-text-coords:%s" % key, "%s: coordinates in columns 1-30 deviate by %g from the molecule's" % (what, d), case)
         return False
     return True
